@@ -132,6 +132,16 @@ namespace sqf::runtime
                 return value;
             }
         }
+        /// <summary>
+        /// The value a finished scope yields to the exit behavior that ends it: the top of the
+        /// current frame's part of the value stack, nil if that part is empty (the last statement
+        /// left no value and an earlier statement separator or a restart removed the placeholder).
+        /// </summary>
+        std::optional<sqf::runtime::value> pop_value_or_nil()
+        {
+            auto value = pop_value();
+            return value.has_value() ? value : std::optional<sqf::runtime::value>{ sqf::runtime::value{} };
+        }
         sqf::runtime::value::cref peek_value() { return m_values.back(); }
 
         std::vector<sqf::runtime::frame>::reverse_iterator frames_rbegin() { return m_frames.rbegin(); }
